@@ -29,6 +29,15 @@ pub fn stub_error_reported_new() -> ErrorReported {
 /// Stub for `crate::io::nice_display_path` (calls `std::env::current_dir`).
 pub fn stub_nice_display_path<P: AsRef<std::path::Path>>(_path: P) -> String { String::new() }
 
+/// Stub for `RootEmitter::emit`: the diagnostics are discarded without being rendered. Used where an
+/// error IS emitted on the path under proof and the renderer (codespan + io::Write + io::Error drop
+/// glue, reached through `dyn WriteError`) makes CBMC diverge. That an `ErrorReported` is produced is
+/// kept; the text of the diagnostic is not part of any obligation.
+pub fn stub_root_emit(_this: &RootEmitter, errors: impl crate::diagnostic::IntoDiagnostics) -> ErrorReported {
+    core::mem::forget(errors);
+    stub_error_reported_new()
+}
+
 /// A diagnostic sink that renders nothing. Used with the *real* `RootEmitter`
 /// (`RootEmitter::new_captured().with_writer(NoopSink)`), so emitted diagnostics still go
 /// through `RootEmitter::emit` and still produce an `ErrorReported`.
@@ -38,7 +47,7 @@ impl WriteError for NoopSink {
 }
 
 pub fn noop_emitter() -> RootEmitter {
-    RootEmitter::new_captured().with_writer(NoopSink)
+    crate::diagnostic::verif_kani::root_emitter_with(NoopSink)
 }
 
 // ---------------------------------------------------------------------------------------
@@ -338,4 +347,53 @@ pub fn label_round_trip(hooks: &dyn crate::llir::LanguageHooks, dest_multiple_of
     let bits = hooks.encode_label(cur, dest);
     let back = hooks.decode_label(cur, bits);
     assert!(back == dest, "jump offset read back differs from the label's offset");
+}
+
+// ---------------------------------------------------------------------------------------
+// C16 ("Any binary input ends in success or a diagnostic, never a crash"), header level:
+// read_instr on ARBITRARY bytes returns Ok or Err - it never panics (no arithmetic overflow, no
+// failed assert, no slice out of range).  The buffer length and the value of the size field are
+// concrete per obligation (a symbolic size makes the reader's EOF path reachable, whose io::Error
+// drop glue CBMC cannot get through - measured); every other byte is symbolic.  The buffer always
+// holds as many bytes as the size field announces, so that the obligation exercises the header
+// logic (underflow of "size - header", sign extension, asserts), not the EOF path.
+/// An emitter that ends the path as soon as a diagnostic is emitted through it (kani::assume(false)).
+/// Everything the reader does BEFORE it reports an error or warning is checked for panics; the
+/// emission machinery itself (diagnostic rendering) is trusted not to panic - it is what CBMC cannot
+/// get through on these paths (measured: 14 of 14 error-reporting cases undecided after 600 s with the
+/// real emitter), and it is exercised by every negative test of the suite.
+pub struct CutEmitter;
+impl crate::diagnostic::Emitter for CutEmitter {
+    fn _root_emitter(&self) -> &RootEmitter { kani::assume(false); loop {} }
+    fn _unspanned_prefix(&self) -> String { kani::assume(false); String::new() }
+}
+
+pub fn read_instr_never_panics<const L: usize>(fmt: &dyn InstrFormat, size_offset: usize, size_width: usize, size_value: usize) {
+    let root = noop_emitter();
+    let cut = CutEmitter;
+    let mut bytes: [u8; L] = kani::any();
+    let mut k = 0;
+    while k < size_width {
+        bytes[size_offset + k] = ((size_value >> (8 * k)) & 0xFF) as u8;
+        k += 1;
+    }
+    let mut r = BinReader::from_reader(&root, "x", std::io::Cursor::new(bytes.to_vec()));
+    // every arithmetic step, assertion and slice access up to the point where read_instr returns or
+    // starts to report a diagnostic is checked by Kani (overflow, underflow, failed assert, capacity
+    // overflow, out-of-range index are all panics = failed checks)
+    vcover!(true, "the reader is reached");      // (for sizes below the header every path ends at the emission cut)
+    match fmt.read_instr(&mut r, &cut) {
+        Ok(x) => core::mem::forget(x),
+        Err(e) => core::mem::forget(e),
+    }
+    core::mem::forget(r);
+    core::mem::forget(root);
+}
+
+/// decode_label on arbitrary bits (a jump argument read from a file) never panics.
+pub fn decode_label_never_panics(hooks: &dyn crate::llir::LanguageHooks) {
+    let cur: u64 = kani::any();
+    kani::assume(cur < (1u64 << 32));       // an offset inside a file that was read into memory
+    let bits: u32 = kani::any();
+    let _ = hooks.decode_label(cur, bits);
 }
